@@ -3,7 +3,7 @@
 From Coq Require Import List NArith ZArith Bool Lia.
 Import ListNotations.
 From LV Require Import Model.Base Model.Template Model.Eval Model.Derived Model.EvalRun Proofs.BaseProofs Proofs.EvalProofs Proofs.EvalInd Proofs.EvalUnfold.
-From LV Require Import Proofs.FrameProofs.
+From LV Require Import Proofs.FrameProofs Proofs.TemplateFrame.
 
 Section FrameTheorem.
   Variable u : N -> list value -> cres.
@@ -99,8 +99,128 @@ Section FrameTheorem.
     (exists l, m' tt = (Ok tt, tt, l) /\ filter is_read l = []) -> Fr o o' m m'.
   Proof. intros [l [E H]] [l' [E' H']] _. unfold obs. rewrite E, E'. cbn [fst snd]. congruence. Qed.
 
+
+  (** *** Template nodes *)
+  Lemma Fr_ext {A} o o' (m n m' n' : M A) :
+    m tt = n tt -> m' tt = n' tt -> Fr o o' n n' -> Fr o o' m m'.
+  Proof. unfold Fr. intros E E'. now rewrite E, E'. Qed.
+
+  Lemma bind_assoc_tt {A B C} (m : M A) (f : A -> M B) (g : B -> M C) :
+    bind unit (bind unit m f) g tt = bind unit m (fun a => bind unit (f a) g) tt.
+  Proof.
+    unfold bind. destruct (m tt) as [[[a|c ee] []] l]; [|reflexivity].
+    destruct (f a tt) as [[[b|c ee] []] l2]; [|reflexivity].
+    destruct (g b tt) as [[r []] l3]. now rewrite app_assoc.
+  Qed.
+
+  Lemma bind_ret_tt {A B} (a : A) (f : A -> M B) : bind unit (ret unit a) f tt = f a tt.
+  Proof. unfold bind, ret. destruct (f a tt) as [[r []] l]. reflexivity. Qed.
+
+  Lemma bind_fail_tt {A B} c ee (f : A -> M B) : bind unit (fail unit c ee) f tt = fail unit c ee tt.
+  Proof. reflexivity. Qed.
+
+  (** reads emitted, then a silent computation: it suffices that, under agreement on the emitted
+      reads, the same reads are emitted and the silent computation is the same *)
+  Lemma Fr_emit_then {A} o o' ks ks' (t t' : M A) :
+    snd (t tt) = [] ->
+    (agree_keys o o' ks -> ks' = ks /\ t' tt = t tt) ->
+    Fr o o' (bind unit (emit_reads unit ks o) (fun _ => t)) (bind unit (emit_reads unit ks' o') (fun _ => t')).
+  Proof.
+    intros Hlog H. unfold Fr, obs, bind. rewrite !emit_reads_run. cbv beta iota.
+    destruct (t tt) as [[r []] l] eqn:Et. cbn [snd] in Hlog. subst l. cbn [fst snd].
+    rewrite app_nil_r, reads_of_map_read. intros Hag.
+    destruct (H Hag) as [-> Et']. rewrite Et'. cbn [fst snd]. rewrite !app_nil_r. f_equal.
+    rewrite !filter_read_map. apply map_ext_in. intros k Hk. unfold present. now rewrite (Hag k Hk).
+  Qed.
+
+  Definition tcont (d o : dict) (s : str) : M value :=
+    bind unit (emit_reads unit (filter (fun k => negb (is_par_key k)) (resolve_reads fuel d (JStr s))) o)
+      (fun _ => bind unit (of_rres unit (resolve fuel d (JStr s)))
+         (fun j => match to_str j with
+                   | Some r => ret unit (VJ (JStr r))
+                   | None => fail unit CUnmodelled false
+                   end)).
+
+  Lemma Fr_tcont o o' pd s :
+    no_par o = true -> no_par o' = true -> only_par pd ->
+    Fr o o' (tcont (mix o pd) o s) (tcont (mix o' pd) o' s).
+  Proof.
+    intros Ho Ho' Hpd. unfold tcont. apply Fr_emit_then.
+    - unfold bind, of_rres, ret, fail. destruct (resolve fuel (mix o pd) (JStr s)) as [j| | | |]; try reflexivity.
+      destruct (to_str j); reflexivity.
+    - intros Hag.
+      pose proof (agree_mix o o' pd Ho Ho' Hpd _ Hag) as Hd.
+      destruct (resolve_frame (mix o pd) (mix o' pd) fuel (JStr s) Hd) as [E1 E2].
+      now rewrite E1, E2.
+  Qed.
+
+  Lemma par_kvs_are_par (pvs : list (N * value)) k v :
+    In (k, v) (flat_map (fun pv => match json_of_value (snd pv) with
+                                   | Some j => [(par_key (fst pv), j)] | None => [] end) pvs) ->
+    exists p, k = par_key p.
+  Proof.
+    intros H. apply in_flat_map in H as [[p x] [_ H]]. cbn [fst snd] in H.
+    destruct (json_of_value x); [|destruct H]. destruct H as [H|[]]. inversion H. now exists p.
+  Qed.
+
+  Lemma Fr_template_eval o o' s (ps : list (N * expr)) :
+    no_par o = true -> no_par o' = true ->
+    (forall pe, In pe ps -> Fr o o' (evalN (snd pe) o) (evalN (snd pe) o')) ->
+    Fr o o'
+      (bind unit (template_options unit (fun x => evalN x o) ps o) (fun d => tcont d o s))
+      (bind unit (template_options unit (fun x => evalN x o') ps o') (fun d => tcont d o' s)).
+  Proof.
+    intros Ho Ho' HP. unfold template_options.
+    eapply Fr_ext; [apply bind_assoc_tt|apply bind_assoc_tt|].
+    apply Fr_bind.
+    - apply Fr_mapM. intros pe Hpe. apply Fr_bind; [apply HP; exact Hpe|intros; apply Fr_refl].
+    - intros pvs.
+      destruct (option_set _ []) as [pd|] eqn:Eos.
+      + destruct (negb (Nat.eqb (length pd) (length ps))).
+        * eapply Fr_ext; [apply bind_fail_tt|apply bind_fail_tt|apply Fr_refl].
+        * eapply Fr_ext; [apply bind_ret_tt|apply bind_ret_tt|].
+          apply Fr_tcont; [exact Ho|exact Ho'|].
+          apply (option_set_only_par _ [] pd (par_kvs_are_par pvs) Eos only_par_nil).
+      + eapply Fr_ext; [apply bind_fail_tt|apply bind_fail_tt|apply Fr_refl].
+  Qed.
+
+  Lemma Fr_ref_validate o o' k :
+    Fr o o'
+      (bind unit (rd unit k o) (fun r =>
+         match r with
+         | TypeErr => fail unit CType false
+         | Absent => fail unit (CKey k) true
+         | Found raw =>
+             bind unit (emit_reads unit (resolve_reads fuel o raw) o) (fun _ =>
+               bind unit (wrap_eval unit (of_rres unit (resolve fuel o raw))) (fun _ => ret unit tt))
+         end))
+      (bind unit (rd unit k o') (fun r =>
+         match r with
+         | TypeErr => fail unit CType false
+         | Absent => fail unit (CKey k) true
+         | Found raw =>
+             bind unit (emit_reads unit (resolve_reads fuel o' raw) o') (fun _ =>
+               bind unit (wrap_eval unit (of_rres unit (resolve fuel o' raw))) (fun _ => ret unit tt))
+         end)).
+  Proof.
+    apply Fr_bind; [apply Fr_rd|]. intros r. destruct r as [raw| |]; try apply Fr_refl.
+    apply Fr_emit_then.
+    - unfold bind, wrap_eval, of_rres, ret, fail. destruct (resolve fuel o raw); reflexivity.
+    - intros Hag. destruct (resolve_frame o o' fuel raw Hag) as [E1 E2]. now rewrite E1, E2.
+  Qed.
+
+  Lemma frag_ps_In (ps : list (N * expr)) :
+    (fix go (l : list (N * expr)) : bool :=
+       match l with [] => true | (_, x) :: l' => frag x && go l' end) ps = true ->
+    forall pe, In pe ps -> frag (snd pe) = true.
+  Proof.
+    induction ps as [|[p x] ps IH]; intros H pe Hpe; [destruct Hpe|].
+    apply andb_prop in H as [Hx Ht]. destruct Hpe as [<-|Hpe]; auto.
+  Qed.
+
   Definition FrAll (e : expr) : Prop :=
-    forall o o', wf_dict o = true -> wf_dict o' = true -> effects_opt_off o' = effects_opt_off o ->
+    forall o o', wf_dict o = true -> wf_dict o' = true -> no_par o = true -> no_par o' = true ->
+      effects_opt_off o' = effects_opt_off o ->
       Fr o o' (evalN e o) (evalN e o') /\
       Fr o o' (validateN e o) (validateN e o') /\
       Fr o o' (keysN e o) (keysN e o').
@@ -128,7 +248,7 @@ Section FrameTheorem.
   Theorem frame_all e : frag e = true -> FrAll e.
   Proof.
     induction e using expr_ind'; intros Hf; cbn [frag] in Hf; try discriminate;
-      intros o o' Hw Hw' Hsw.
+      intros o o' Hw Hw' Hnp Hnp' Hsw.
     - (* EValue *)
       repeat split; apply Fr_refl.
     - (* EOption *)
@@ -140,24 +260,24 @@ Section FrameTheorem.
       { unfold option_eval. apply Fr_bind; [apply Fr_rd|]. intros r.
         apply Fr_bind.
         - destruct r as [raw| |]; [apply Fr_resolved| |apply Fr_refl].
-          destruct dflt as [d|]; [|apply Fr_refl]. apply (HD o o' Hw Hw' Hsw).
+          destruct dflt as [d|]; [|apply Fr_refl]. apply (HD o o' Hw Hw' Hnp Hnp' Hsw).
         - intros v. destruct dom as [de|]; [|apply Fr_refl].
-          apply Fr_bind; [apply (HM o o' Hw Hw' Hsw)|]. intros; apply Fr_refl. }
+          apply Fr_bind; [apply (HM o o' Hw Hw' Hnp Hnp' Hsw)|]. intros; apply Fr_refl. }
       repeat split.
       + unf eval_EOption. apply Fr_wrap. exact Hev.
       + unf validate_EOption. apply Fr_bind; [apply Fr_rd|]. intros r.
-        destruct r as [raw| |]; [|destruct dflt as [d|]; [apply (HD o o' Hw Hw' Hsw)|apply Fr_refl]|apply Fr_refl].
+        destruct r as [raw| |]; [|destruct dflt as [d|]; [apply (HD o o' Hw Hw' Hnp Hnp' Hsw)|apply Fr_refl]|apply Fr_refl].
         apply Fr_bind; [apply Fr_wrap; exact Hev|intros; apply Fr_refl].
       + unf keys_EOption. apply Fr_bind; [apply Fr_rd|]. intros r.
-        destruct r as [v| |]; [|destruct dflt as [d|]; [apply (HD o o' Hw Hw' Hsw)|apply Fr_refl]|apply Fr_refl].
+        destruct r as [v| |]; [|destruct dflt as [d|]; [apply (HD o o' Hw Hw' Hnp Hnp' Hsw)|apply Fr_refl]|apply Fr_refl].
         destruct v; try apply Fr_refl.
         destruct (existsb _ s); [apply Fr_refl|].
         apply Fr_bind; [|intros; apply Fr_refl].
         apply Fr_unionM. intros; apply Fr_ref_keys.
     - (* EApply *)
       apply andb_prop in Hf as [Ha Hb].
-      destruct (IHe1 Ha o o' Hw Hw' Hsw) as (E1 & V1 & K1).
-      destruct (IHe2 Hb o o' Hw Hw' Hsw) as (E2 & V2 & K2).
+      destruct (IHe1 Ha o o' Hw Hw' Hnp Hnp' Hsw) as (E1 & V1 & K1).
+      destruct (IHe2 Hb o o' Hw Hw' Hnp Hnp' Hsw) as (E2 & V2 & K2).
       repeat split.
       + unf eval_EApply. apply Fr_wrap. apply Fr_bind; [exact E1|]. intros x.
         apply Fr_bind; [exact E2|]. intros; apply Fr_refl.
@@ -166,27 +286,27 @@ Section FrameTheorem.
         apply Fr_bind; [exact K2|]. intros; apply Fr_refl.
     - (* EBind *)
       apply andb_prop in Hf as [Hf Hdf]. apply andb_prop in Hf as [Hs Ht].
-      destruct (IHe Hs o o' Hw Hw' Hsw) as (E1 & V1 & K1).
+      destruct (IHe Hs o o' Hw Hw' Hnp Hnp' Hsw) as (E1 & V1 & K1).
       assert (HT : forall b, In b (map snd tbl) -> FrAll b).
       { intros b Hb. apply (Forall_tbl_In (fun x => frag x = true -> FrAll x) _ H b Hb). apply (frag_tbl_In _ Ht b Hb). }
       assert (HD : FrOpt dflt) by (destruct dflt; [apply H0; exact Hdf|exact I]).
       repeat split.
       + unf eval_EBind. apply Fr_wrap. apply Fr_bind; [exact E1|]. intros x.
         apply Fr_pick.
-        * intros b Hb. apply (HT b Hb o o' Hw Hw' Hsw).
-        * destruct dflt as [d|]; [apply (HD o o' Hw Hw' Hsw)|apply Fr_refl].
+        * intros b Hb. apply (HT b Hb o o' Hw Hw' Hnp Hnp' Hsw).
+        * destruct dflt as [d|]; [apply (HD o o' Hw Hw' Hnp Hnp' Hsw)|apply Fr_refl].
       + unf validate_EBind. apply Fr_bind; [exact V1|]. intros _.
         apply Fr_bind; [exact E1|]. intros x. apply Fr_pick.
-        * intros b Hb. apply (HT b Hb o o' Hw Hw' Hsw).
-        * destruct dflt as [d|]; [apply (HD o o' Hw Hw' Hsw)|apply Fr_refl].
+        * intros b Hb. apply (HT b Hb o o' Hw Hw' Hnp Hnp' Hsw).
+        * destruct dflt as [d|]; [apply (HD o o' Hw Hw' Hnp Hnp' Hsw)|apply Fr_refl].
       + unf keys_EBind. apply Fr_bind; [exact K1|]. intros a.
         apply Fr_bind; [exact E1|]. intros x.
         apply Fr_bind; [|intros; apply Fr_refl]. apply Fr_pick.
-        * intros b Hb. apply (HT b Hb o o' Hw Hw' Hsw).
-        * destruct dflt as [d|]; [apply (HD o o' Hw Hw' Hsw)|apply Fr_refl].
+        * intros b Hb. apply (HT b Hb o o' Hw Hw' Hnp Hnp' Hsw).
+        * destruct dflt as [d|]; [apply (HD o o' Hw Hw' Hnp Hnp' Hsw)|apply Fr_refl].
     - (* ESwitch *)
       apply andb_prop in Hf as [Hf Hdf]. apply andb_prop in Hf as [Hs Ht].
-      destruct (IHe Hs o o' Hw Hw' Hsw) as (E1 & V1 & K1).
+      destruct (IHe Hs o o' Hw Hw' Hnp Hnp' Hsw) as (E1 & V1 & K1).
       assert (HT : forall b, In b (map snd tbl) -> FrAll b).
       { intros b Hb. apply (Forall_tbl_In (fun x => frag x = true -> FrAll x) _ H b Hb). apply (frag_tbl_In _ Ht b Hb). }
       assert (HD : FrOpt dflt) by (destruct dflt; [apply H0; exact Hdf|exact I]).
@@ -199,73 +319,73 @@ Section FrameTheorem.
       + unf eval_ESwitch. apply Fr_wrap. apply Fr_bind; [exact Hdisp|]. intros dv.
         destruct dv as [k|].
         * destruct (negb (hashable k)); [apply Fr_refl|]. apply Fr_pick.
-          -- intros b Hb. apply (HT b Hb o o' Hw Hw' Hsw).
-          -- destruct dflt as [d|]; [apply (HD o o' Hw Hw' Hsw)|apply Fr_refl].
-        * destruct dflt as [d|]; [apply (HD o o' Hw Hw' Hsw)|apply Fr_refl].
+          -- intros b Hb. apply (HT b Hb o o' Hw Hw' Hnp Hnp' Hsw).
+          -- destruct dflt as [d|]; [apply (HD o o' Hw Hw' Hnp Hnp' Hsw)|apply Fr_refl].
+        * destruct dflt as [d|]; [apply (HD o o' Hw Hw' Hnp Hnp' Hsw)|apply Fr_refl].
       + unf validate_ESwitch. apply Fr_bind; [exact Hdisp|]. intros dv.
         destruct dv as [k|].
         * destruct (negb (hashable k)); [apply Fr_refl|]. apply Fr_pick.
-          -- intros b Hb. apply (HT b Hb o o' Hw Hw' Hsw).
-          -- destruct dflt as [d|]; [apply (HD o o' Hw Hw' Hsw)|apply Fr_refl].
-        * destruct dflt as [d|]; [apply (HD o o' Hw Hw' Hsw)|apply Fr_refl].
+          -- intros b Hb. apply (HT b Hb o o' Hw Hw' Hnp Hnp' Hsw).
+          -- destruct dflt as [d|]; [apply (HD o o' Hw Hw' Hnp Hnp' Hsw)|apply Fr_refl].
+        * destruct dflt as [d|]; [apply (HD o o' Hw Hw' Hnp Hnp' Hsw)|apply Fr_refl].
       + unf keys_ESwitch. apply Fr_bind; [exact Hdisp|]. intros dv.
         destruct dv as [k|].
         * destruct (negb (hashable k)); [apply Fr_refl|].
           apply Fr_bind.
           -- apply Fr_pick.
-             ++ intros b Hb. apply (HT b Hb o o' Hw Hw' Hsw).
-             ++ destruct dflt as [d|]; [apply (HD o o' Hw Hw' Hsw)|apply Fr_refl].
+             ++ intros b Hb. apply (HT b Hb o o' Hw Hw' Hnp Hnp' Hsw).
+             ++ destruct dflt as [d|]; [apply (HD o o' Hw Hw' Hnp Hnp' Hsw)|apply Fr_refl].
           -- intros a. apply Fr_bind; [exact K1|intros; apply Fr_refl].
-        * destruct dflt as [d|]; [apply (HD o o' Hw Hw' Hsw)|apply Fr_refl].
+        * destruct dflt as [d|]; [apply (HD o o' Hw Hw' Hnp Hnp' Hsw)|apply Fr_refl].
     - (* ECase *)
       apply andb_prop in Hf as [Hf Hdf]. apply andb_prop in Hf as [Hs Ht].
-      destruct (IHe Hs o o' Hw Hw' Hsw) as (E1 & V1 & K1).
+      destruct (IHe Hs o o' Hw Hw' Hnp Hnp' Hsw) as (E1 & V1 & K1).
       assert (HD : FrOpt dflt) by (destruct dflt; [apply H0; exact Hdf|exact I]).
       repeat split.
       + unf eval_ECase. apply Fr_wrap. apply Fr_bind; [exact E1|]. intros x.
         clear IHe E1 V1 K1 Hs. induction H as [|[c r] cases [Hc Hr] Hrest IH].
-        * destruct dflt as [d|]; [apply (HD o o' Hw Hw' Hsw)|apply Fr_refl].
+        * destruct dflt as [d|]; [apply (HD o o' Hw Hw' Hnp Hnp' Hsw)|apply Fr_refl].
         * cbn [fst snd] in *. apply andb_prop in Ht as [Ht1 Ht]. apply andb_prop in Ht1 as [Fc Frr].
-          cbv beta iota. apply Fr_bind; [apply (Hc Fc o o' Hw Hw' Hsw)|]. intros p.
+          cbv beta iota. apply Fr_bind; [apply (Hc Fc o o' Hw Hw' Hnp Hnp' Hsw)|]. intros p.
           apply Fr_bind; [apply Fr_refl|]. intros b.
-          destruct (truthy b); [apply (Hr Frr o o' Hw Hw' Hsw)|apply IH; exact Ht].
+          destruct (truthy b); [apply (Hr Frr o o' Hw Hw' Hnp Hnp' Hsw)|apply IH; exact Ht].
       + unf validate_ECase. apply Fr_bind; [exact V1|]. intros _.
         apply Fr_bind; [exact E1|]. intros x.
         clear IHe E1 V1 K1 Hs. induction H as [|[c r] cases [Hc Hr] Hrest IH].
-        * destruct dflt as [d|]; [apply (HD o o' Hw Hw' Hsw)|apply Fr_refl].
+        * destruct dflt as [d|]; [apply (HD o o' Hw Hw' Hnp Hnp' Hsw)|apply Fr_refl].
         * cbn [fst snd] in *. apply andb_prop in Ht as [Ht1 Ht]. apply andb_prop in Ht1 as [Fc Frr].
-          cbv beta iota. apply Fr_bind; [apply (Hc Fc o o' Hw Hw' Hsw)|]. intros p.
+          cbv beta iota. apply Fr_bind; [apply (Hc Fc o o' Hw Hw' Hnp Hnp' Hsw)|]. intros p.
           apply Fr_bind; [apply Fr_refl|]. intros b.
-          destruct (truthy b); [apply (Hr Frr o o' Hw Hw' Hsw)|apply IH; exact Ht].
+          destruct (truthy b); [apply (Hr Frr o o' Hw Hw' Hnp Hnp' Hsw)|apply IH; exact Ht].
       + unf keys_ECase. apply Fr_bind; [exact K1|]. intros a.
         apply Fr_bind; [exact E1|]. intros x.
         apply Fr_bind; [|intros; apply Fr_refl].
         clear IHe E1 V1 K1 Hs. induction H as [|[c r] cases [Hc Hr] Hrest IH].
-        * destruct dflt as [d|]; [apply (HD o o' Hw Hw' Hsw)|apply Fr_refl].
+        * destruct dflt as [d|]; [apply (HD o o' Hw Hw' Hnp Hnp' Hsw)|apply Fr_refl].
         * cbn [fst snd] in *. apply andb_prop in Ht as [Ht1 Ht]. apply andb_prop in Ht1 as [Fc Frr].
-          cbv beta iota. apply Fr_bind; [apply (Hc Fc o o' Hw Hw' Hsw)|]. intros p.
+          cbv beta iota. apply Fr_bind; [apply (Hc Fc o o' Hw Hw' Hnp Hnp' Hsw)|]. intros p.
           apply Fr_bind; [apply Fr_refl|]. intros b.
-          destruct (truthy b); [apply (Hr Frr o o' Hw Hw' Hsw)|apply IH; exact Ht].
+          destruct (truthy b); [apply (Hr Frr o o' Hw Hw' Hnp Hnp' Hsw)|apply IH; exact Ht].
     - (* ECoalesce *)
       repeat split.
       + unf eval_ECoalesce. apply Fr_wrap. generalize (@None (cause * bool)).
         induction H as [|m ms Hm Hrest IH]; intros last.
         * apply Fr_refl.
-        * apply andb_prop in Hf as [Fm Fms]. destruct (Hm Fm o o' Hw Hw' Hsw) as (E1 & V1 & K1).
+        * apply andb_prop in Hf as [Fm Fms]. destruct (Hm Fm o o' Hw Hw' Hnp Hnp' Hsw) as (E1 & V1 & K1).
           cbv beta iota. apply Fr_catch.
           -- apply Fr_bind; [exact V1|intros; exact E1].
           -- intros c ee. destruct ee; [apply IH; exact Fms|apply Fr_refl].
       + unf validate_ECoalesce. generalize (@None (cause * bool)).
         induction H as [|m ms Hm Hrest IH]; intros last.
         * apply Fr_refl.
-        * apply andb_prop in Hf as [Fm Fms]. destruct (Hm Fm o o' Hw Hw' Hsw) as (E1 & V1 & K1).
+        * apply andb_prop in Hf as [Fm Fms]. destruct (Hm Fm o o' Hw Hw' Hnp Hnp' Hsw) as (E1 & V1 & K1).
           cbv beta iota. apply Fr_catch.
           -- apply Fr_bind; [exact V1|intros; exact V1].
           -- intros c ee. destruct ee; [apply IH; exact Fms|apply Fr_refl].
       + unf keys_ECoalesce. generalize (@None (cause * bool)).
         induction H as [|m ms Hm Hrest IH]; intros last.
         * apply Fr_refl.
-        * apply andb_prop in Hf as [Fm Fms]. destruct (Hm Fm o o' Hw Hw' Hsw) as (E1 & V1 & K1).
+        * apply andb_prop in Hf as [Fm Fms]. destruct (Hm Fm o o' Hw Hw' Hnp Hnp' Hsw) as (E1 & V1 & K1).
           cbv beta iota. apply Fr_catch.
           -- apply Fr_bind; [exact V1|intros; exact K1].
           -- intros c ee. destruct ee; [apply IH; exact Fms|apply Fr_refl].
@@ -276,21 +396,21 @@ Section FrameTheorem.
       + unf eval_EIter. apply Fr_wrap. apply Fr_bind; [|intros; apply Fr_refl].
         clear H Hf. induction es as [|x es IH]; [apply Fr_refl|].
         cbv beta iota. apply Fr_catch; [|intros; apply Fr_refl].
-        apply Fr_bind; [apply (HA x (or_introl eq_refl) o o' Hw Hw' Hsw)|]. intros v.
+        apply Fr_bind; [apply (HA x (or_introl eq_refl) o o' Hw Hw' Hnp Hnp' Hsw)|]. intros v.
         destruct (is_some (deep_err v)); [apply Fr_refl|].
         apply Fr_bind; [|intros; apply Fr_refl]. apply IH. intros y Hy. apply HA. now right.
-      + unf validate_EIter. apply Fr_iterM. intros x Hx. apply (HA x Hx o o' Hw Hw' Hsw).
-      + unf keys_EIter. apply Fr_unionM. intros x Hx. apply (HA x Hx o o' Hw Hw' Hsw).
+      + unf validate_EIter. apply Fr_iterM. intros x Hx. apply (HA x Hx o o' Hw Hw' Hnp Hnp' Hsw).
+      + unf keys_EIter. apply Fr_unionM. intros x Hx. apply (HA x Hx o o' Hw Hw' Hnp Hnp' Hsw).
     - (* EWith *)
       destruct p; [|discriminate].
-      destruct (IHe Hf o o' Hw Hw' Hsw) as (E1 & V1 & K1).
+      destruct (IHe Hf o o' Hw Hw' Hnp Hnp' Hsw) as (E1 & V1 & K1).
       repeat split.
       + unf eval_EWith. rewrite !with_opts_nil by assumption. apply Fr_wrap. exact E1.
       + unf validate_EWith. rewrite !with_opts_nil by assumption. exact V1.
       + unf keys_EWith. cbv zeta. rewrite !with_opts_nil by assumption.
         apply Fr_bind; [exact K1|]. intros ks. rewrite !filter_preset_nil. apply Fr_refl.
     - (* ECached *)
-      destruct (IHe Hf o o' Hw Hw' Hsw) as (E1 & V1 & K1).
+      destruct (IHe Hf o o' Hw Hw' Hnp Hnp' Hsw) as (E1 & V1 & K1).
       repeat split.
       + unf eval_ECached. apply Fr_wrap. destruct c; [|exact E1].
         cbn [cfg_nc cache_ctx_off orb]. exact E1.
@@ -299,26 +419,40 @@ Section FrameTheorem.
       + unf keys_ECached. exact K1.
     - (* ECall *)
       apply andb_prop in Hf as [Hf Hkw]. apply andb_prop in Hf as [Hfn Har].
-      destruct (IHe Hfn o o' Hw Hw' Hsw) as (E1 & V1 & K1).
+      destruct (IHe Hfn o o' Hw Hw' Hnp Hnp' Hsw) as (E1 & V1 & K1).
       assert (HA : forall x, In x args -> FrAll x).
       { intros x Hx. rewrite Forall_forall in H. apply (H x Hx). apply (frag_all_In args Har x Hx). }
       assert (HK : forall x, In x kwargs -> FrAll x).
       { intros x Hx. rewrite Forall_forall in H0. apply (H0 x Hx). apply (frag_all_In kwargs Hkw x Hx). }
       repeat split.
       + unf eval_ECall. apply Fr_wrap. apply Fr_bind; [exact E1|]. intros fv.
-        apply Fr_bind; [apply Fr_mapM; intros x Hx; apply (HA x Hx o o' Hw Hw' Hsw)|]. intros av.
-        apply Fr_bind; [apply Fr_mapM; intros x Hx; apply (HK x Hx o o' Hw Hw' Hsw)|]. intros kv.
+        apply Fr_bind; [apply Fr_mapM; intros x Hx; apply (HA x Hx o o' Hw Hw' Hnp Hnp' Hsw)|]. intros av.
+        apply Fr_bind; [apply Fr_mapM; intros x Hx; apply (HK x Hx o o' Hw Hw' Hnp Hnp' Hsw)|]. intros kv.
         apply Fr_refl.
       + unf validate_ECall. apply Fr_bind; [exact V1|]. intros _.
-        apply Fr_bind; [apply Fr_iterM; intros x Hx; apply (HA x Hx o o' Hw Hw' Hsw)|]. intros _.
-        apply Fr_iterM; intros x Hx; apply (HK x Hx o o' Hw Hw' Hsw).
+        apply Fr_bind; [apply Fr_iterM; intros x Hx; apply (HA x Hx o o' Hw Hw' Hnp Hnp' Hsw)|]. intros _.
+        apply Fr_iterM; intros x Hx; apply (HK x Hx o o' Hw Hw' Hnp Hnp' Hsw).
       + unf keys_ECall. apply Fr_bind; [exact K1|]. intros a.
-        apply Fr_bind; [apply Fr_unionM; intros x Hx; apply (HA x Hx o o' Hw Hw' Hsw)|]. intros b.
-        apply Fr_bind; [apply Fr_unionM; intros x Hx; apply (HK x Hx o o' Hw Hw' Hsw)|]. intros c.
+        apply Fr_bind; [apply Fr_unionM; intros x Hx; apply (HA x Hx o o' Hw Hw' Hnp Hnp' Hsw)|]. intros b.
+        apply Fr_bind; [apply Fr_unionM; intros x Hx; apply (HK x Hx o o' Hw Hw' Hnp Hnp' Hsw)|]. intros c.
         apply Fr_refl.
+    - (* ETemplate *)
+      assert (HA : forall pe, In pe ps -> FrAll (snd pe)).
+      { intros pe Hpe. rewrite Forall_forall in H. apply (H pe Hpe). apply (frag_ps_In ps Hf pe Hpe). }
+      repeat split.
+      + unf eval_ETemplate. apply Fr_wrap.
+        apply (Fr_template_eval o o' s ps Hnp Hnp').
+        intros pe Hpe. apply (HA pe Hpe o o' Hw Hw' Hnp Hnp' Hsw).
+      + unf validate_ETemplate. apply Fr_bind.
+        * apply Fr_iterM. intros pe Hpe. apply (HA pe Hpe o o' Hw Hw' Hnp Hnp' Hsw).
+        * intros _. apply Fr_iterM. intros k _. apply Fr_ref_validate.
+      + unf keys_ETemplate. apply Fr_bind.
+        * apply Fr_unionM. intros pe Hpe. apply (HA pe Hpe o o' Hw Hw' Hnp Hnp' Hsw).
+        * intros a. apply Fr_bind; [|intros; apply Fr_refl].
+          apply Fr_unionM. intros; apply Fr_ref_keys.
     - (* EComp *)
       apply andb_prop in Hf as [Hfe Heff].
-      destruct (IHe Hfe o o' Hw Hw' Hsw) as (E1 & V1 & K1).
+      destruct (IHe Hfe o o' Hw Hw' Hnp Hnp' Hsw) as (E1 & V1 & K1).
       assert (HA : forall x, In x effects -> FrAll x).
       { intros x Hx. rewrite Forall_forall in H. apply (H x Hx). apply (frag_all_In effects Heff x Hx). }
       repeat split.
@@ -326,15 +460,15 @@ Section FrameTheorem.
         apply Fr_bind; [|intros; apply Fr_refl].
         assert (HI : Fr o o' (iterM unit (fun eff => bind unit (evalN eff o) (fun f => bind unit (call_value unit u f v) (fun _ => ret unit tt))) effects)
                              (iterM unit (fun eff => bind unit (evalN eff o') (fun f => bind unit (call_value unit u f v) (fun _ => ret unit tt))) effects)).
-        { apply Fr_iterM. intros x Hx. apply Fr_bind; [apply (HA x Hx o o' Hw Hw' Hsw)|]. intros; apply Fr_refl. }
+        { apply Fr_iterM. intros x Hx. apply Fr_bind; [apply (HA x Hx o o' Hw Hw' Hnp Hnp' Hsw)|]. intros; apply Fr_refl. }
         rewrite Hsw. destruct (effects_opt_off o); [apply Fr_refl|exact HI].
       + unf validate_EComp. apply Fr_bind; [exact V1|]. intros _.
         assert (HI : Fr o o' (iterM unit (fun x => validateN x o) effects) (iterM unit (fun x => validateN x o') effects)).
-        { apply Fr_iterM. intros x Hx. apply (HA x Hx o o' Hw Hw' Hsw). }
+        { apply Fr_iterM. intros x Hx. apply (HA x Hx o o' Hw Hw' Hnp Hnp' Hsw). }
         rewrite Hsw. destruct (effects_opt_off o); [apply Fr_refl|exact HI].
       + unf keys_EComp. exact K1.
     - (* ELogged *)
-      destruct (IHe Hf o o' Hw Hw' Hsw) as (E1 & V1 & K1).
+      destruct (IHe Hf o o' Hw Hw' Hnp Hnp' Hsw) as (E1 & V1 & K1).
       repeat split.
       + unf eval_ELogged. apply Fr_wrap. apply Fr_bind; [apply Fr_refl|]. intros _.
         apply Fr_bind; [|intros; exact E1].
@@ -348,8 +482,8 @@ Section FrameTheorem.
       { intros x Hx. rewrite Forall_forall in H. apply (H x Hx). apply (frag_all_In steps Hf x Hx). }
       repeat split.
       + unf eval_EPipe. apply Fr_wrap. apply Fr_bind; [|intros; apply Fr_refl].
-        apply Fr_mapM; intros x Hx; apply (HA x Hx o o' Hw Hw' Hsw).
-      + unf validate_EPipe. apply Fr_iterM; intros x Hx; apply (HA x Hx o o' Hw Hw' Hsw).
-      + unf keys_EPipe. apply Fr_unionM; intros x Hx; apply (HA x Hx o o' Hw Hw' Hsw).
+        apply Fr_mapM; intros x Hx; apply (HA x Hx o o' Hw Hw' Hnp Hnp' Hsw).
+      + unf validate_EPipe. apply Fr_iterM; intros x Hx; apply (HA x Hx o o' Hw Hw' Hnp Hnp' Hsw).
+      + unf keys_EPipe. apply Fr_unionM; intros x Hx; apply (HA x Hx o o' Hw Hw' Hnp Hnp' Hsw).
   Qed.
 End FrameTheorem.
